@@ -23,20 +23,20 @@ const modPath = "github.com/klev-dev/klevdb"
 // Prog is the shared program model: syntax + types, SSA, VTA call graph.
 type Prog struct {
 	pureMemo map[*ssa.Function]int
-	Root  string // repository root (absolute)
-	SpecDir string
-	Pkgs  []*packages.Package
-	ByPath map[string]*packages.Package
-	Fset  *token.FileSet
-	SSA   *ssa.Program
-	CG    *callgraph.Graph
-	Funcs []*ssa.Function // module functions with bodies (incl. anonymous, wrappers, instantiations)
+	Root     string // repository root (absolute)
+	SpecDir  string
+	Pkgs     []*packages.Package
+	ByPath   map[string]*packages.Package
+	Fset     *token.FileSet
+	SSA      *ssa.Program
+	CG       *callgraph.Graph
+	Funcs    []*ssa.Function // module functions with bodies (incl. anonymous, wrappers, instantiations)
 
-	ea        *ErrAtoms
-	ls        *Lockset
+	ea           *ErrAtoms
+	ls           *Lockset
 	apiReachMemo map[*ssa.Function]map[string]bool
 	fileParamFx  map[*ssa.Function]map[int][2]bool
-	R         *Roles
+	R            *Roles
 
 	Stats struct {
 		Packages  int
